@@ -519,6 +519,32 @@ var overlapFamilies = []struct{ pats, paths []string }{
 func streamResolve(g *G) { // C02: add-only tables, several registration orders
 	rid := 1
 	for !g.full() {
+		if g.chance(0.15) {
+			// >= 5 literal children that all have children of their own (equal priority), then a route that splits one
+			// of them which is not the last: every sibling behind it moves by one position under the first-byte index
+			roots := []string{"/users/", "/posts/", "/tags/", "/admin/", "/files/", "/media/"}[:5+g.intn(2)]
+			g.routerLine(rid, routerOpt{name: "r"})
+			h := 1
+			var all []string
+			for _, r0 := range roots {
+				for _, leaf := range []string{"list", "new"} {
+					all = append(all, r0+leaf)
+					g.emit("handle %d %s %d %s %s", rid, encB(r0+leaf), h, "%-", encL([]string{"GET"}))
+					h++
+				}
+			}
+			k := g.intn(len(roots) - 1)
+			sp := roots[k][:2] + g.pick([]string{"ploads", "zz", "-x"})
+			all = append(all, sp)
+			g.emit("handle %d %s %d %s %s", rid, encB(sp), h, "%-", encL([]string{"GET"}))
+			g.emit("routes %d", rid)
+			g.emit("dump %d", rid)
+			for _, p := range all {
+				g.serveLine("serve", rid, "GET", p, "", nil)
+				g.emit("spec-adm %d %s", rid, encB(p))
+			}
+			rid++
+		}
 		useIc := g.chance(0.5)
 		n := 2 + g.intn(10)
 		var pats []string
@@ -744,6 +770,19 @@ func streamOnion(g *G) { // C09
 	rid, gid := 1, 1
 	for !g.full() {
 		g.history(rid, histCfg{trace: g.chance(0.5), mws: true, probes: 1, probeAll: true}, 5+g.intn(10))
+		rid++
+		// factory invocations, counted around single calls: repeated registrations on one pattern, Use before/after
+		g.routerLine(rid, routerOpt{name: "cnt", trace: g.chance(0.5)})
+		pats := []string{"/api/items", "/api/other", "/x/{id}"}
+		for i := 0; i < 10; i++ {
+			g.emit("mw-calls")
+			if g.chance(0.25) {
+				g.emit("use %d %s", rid, encNatList(g.mwList()))
+			} else {
+				g.emit("handle %d %s %d %s %s", rid, encB(g.pick(pats)), 50+i, encNatList(g.mwList()), encL(g.methodList(g.chance(0.85))))
+			}
+		}
+		g.emit("mw-calls")
 		rid++
 		// facades and a group
 		g.emit("group %d 0 %s %%_ %%- 0 %%- %%- %%- 0 0", gid, b2s(g.chance(0.5)))
